@@ -100,6 +100,24 @@ fn is_len_call(e: &syn::Expr) -> bool {
 impl<'a> VisitMut for Rules<'a> {
     fn visit_type_mut(&mut self, t: &mut syn::Type) {
         syn::visit_mut::visit_type_mut(self, t);
+        if self.ctx.on("R13") {
+            // R13t: IndexMap<String, V> -> SMap<V> (trusted stub with a ghost view)
+            if let syn::Type::Path(p) = t {
+                if let Some(last) = p.path.segments.last() {
+                    if last.ident == "IndexMap" {
+                        if let syn::PathArguments::AngleBracketed(ab) = &last.arguments {
+                            let args: Vec<&syn::GenericArgument> = ab.args.iter().collect();
+                            if args.len() == 2 && norm(&args[0].to_token_stream().to_string()) == "String" {
+                                let v = args[1].clone();
+                                *t = syn::parse_quote!(SMap<#v>);
+                                self.ctx.used("R13");
+                                return;
+                            }
+                        }
+                    }
+                }
+            }
+        }
         if self.ctx.on("R10") {
             if let syn::Type::Path(p) = t {
                 if p.qself.is_none() && p.path.is_ident("f64") {
@@ -304,6 +322,11 @@ impl<'a> VisitMut for Rules<'a> {
                         self.ctx.used("R10");
                         return;
                     }
+                }
+                if self.ctx.on("R13") && s == "IndexMap::new" {
+                    *e = syn::parse_quote!(SMap::new);
+                    self.ctx.used("R13");
+                    return;
                 }
                 // R20: consts that became functions
                 if let Some(last) = p.path.segments.last() {
